@@ -82,6 +82,9 @@ class Engine(object):
             self.uf_cache = {}
             self.bounds = {}
             self.path_notes = []
+            self.math_calls = []
+            self.exact_floats = False
+            self.float_bound = 'absolute'
             CURRENT = self
             try:
                 try:
